@@ -11,6 +11,7 @@
    in flight in s; nothing otherwise. *)
 From Coq Require Import String List NArith ZArith Bool.
 From MevVerif Require Import lib.Bytes model.Topology check.Check_C15 proofs.Topology_proofs.
+From MevVerif Require proofs.Topology_overlap.
 Import ListNotations.
 Open Scope N_scope.
 
@@ -317,6 +318,34 @@ Theorem C15_overlap_self_accepts_model : forall acts w,
 Proof. exact overlap_self_accepts_model. Qed.
 Print Assumptions C15_overlap_self_accepts_model.
 
+(* Round A5: two more parts of the overlap checker for ARBITRARY schedules (proofs/Topology_overlap.v).
+   WIRES -- the PeerLists a call writes are exactly those its announcer calls lead to under the call's
+   own fault table (one per announcer call whose stream opens, carrying the encoded records): the wire
+   disjuncts of announce:extra and of announce:missing are silent.  NON-EMPTY -- no announcer call
+   ever carries an empty record list: the "empty message" disjunct of announce:extra is silent.
+   Together with C15_overlap_view_accepts_model and C15_overlap_self_accepts_model this leaves, for
+   arbitrary schedules, exactly the disjuncts that compare records with the window sets (w_everP,
+   w_everB: announce:bidder and the foreign-record / fan-out disjuncts of announce:extra; w_alwP,
+   w_alwB under "returned": announce:missing) and the hang flag (which needs the premise that the
+   schedule releases every call to its end).  Their proof needs one more invariant, not closed in this
+   round: for the compiled schedule, the base state at the effective SReadProviders c / SReadBidders c
+   step is the state at the end of the action that contains it, that action acts on c, so the
+   snapshot's keys are inside the window's "ever" sets and contain its "always" sets.  The one-theorem
+   form stays open; C15_overlap_checker_accepts_model_partial (directed family) is unchanged. *)
+Theorem C15_overlap_wires_accept_model : forall acts w,
+  NoDup (started_calls acts) -> In w (fst (windows abs_init [] acts)) ->
+  let eff := call_effects (w_id w) (compile sinit acts) in
+  ms_diff wmsg_eqb (wires eff) (expected_wires (w_ann w) (announces eff)) = []
+  /\ ms_diff wmsg_eqb (expected_wires (w_ann w) (announces eff)) (wires eff) = [].
+Proof. exact Topology_overlap.overlap_wires_accept_model. Qed.
+Print Assumptions C15_overlap_wires_accept_model.
+
+Theorem C15_overlap_nonempty_accept_model : forall acts c,
+  let eff := call_effects c (compile sinit acts) in
+  existsb (fun m => is_nil (snd m)) (announces eff) = false.
+Proof. exact Topology_overlap.overlap_nonempty_accept_model. Qed.
+Print Assumptions C15_overlap_nonempty_accept_model.
+
 (* ---- event level versus system level: the late add ----------------------------------------------
    C15_view is a statement about the events the Topology receives.  It is NOT the system-level claim
    "the reported view holds only peers the p2p layer still has": for a peer learned through gossip
@@ -418,3 +447,123 @@ Theorem C15_disconnected_is_registry_notification : forall js e p,
              (PeerRegistry.step (PeerRegistry.run (Compose_topology.revents pre)) (PeerRegistry.ConnClosed c))).
 Proof. exact Compose_topology.disconnected_is_registry_notification. Qed.
 Print Assumptions C15_disconnected_is_registry_notification.
+
+(* ---- the discovery machine (model/Discovery.v): list handler, dispatcher, semaphore and workers as ONE machine ----
+   [drun cap evs] runs a schedule [evs] of any length from the initial state: lists of any length read by
+   any number of handlers (DList), each handler looking at its next entry (DCheck: IsConnected on the
+   shared topology at that moment), handing it to the dispatcher (DHandoff: only when the dispatcher is
+   at its receive), contexts ending (DCancel) and a handler in its select returning (DGiveUp), the
+   dispatcher taking a slot (DAcquire: only while fewer than [cap] are held), Connect calls returning in
+   any order with any answer (DDone u (DialOk p | DialErr undecodable/self/blocked/unreachable)),
+   topology events in between (DTopo).  Events that are not enabled are no-ops, so every event list is a
+   schedule.  The outcome type has an explicit crash value (Weighted.Release with nothing held). *)
+From MevVerif Require model.Discovery proofs.Discovery_proofs.
+Import Discovery.
+
+(* No schedule crashes or fails; the semaphore's count always equals the number of running Connect calls
+   and never exceeds the width of the pool (any width). *)
+Theorem C15_discovery_pool_bound : forall cap evs,
+  exists s effs, drun cap evs = Ok (s, effs)
+                 /\ N.of_nat (length (d_flying s)) = d_held s /\ d_held s <= cap.
+Proof. exact Discovery_proofs.disc_pool_bound. Qed.
+Print Assumptions C15_discovery_pool_bound.
+
+(* Every entry exactly once.  For every weight function f on entries and g on underlays (equality of the
+   weighted sums for all f is equality of multisets): the entries of all lists that were read = the
+   entries still waiting (in a handler's list or in the dispatcher's hand) + the entries skipped, each
+   with its reason (known to the topology when it was looked at / the handler's context ended) + the
+   entries for which Connect was called; and the Connect calls made = those still running + those that
+   returned (each with its answer).  So no entry is dialled twice, skipped and dialled, or lost. *)
+Theorem C15_discovery_every_entry_once : forall cap evs s effs (f : wire_record -> nat) (g : bytes -> nat),
+  drun cap evs = Ok (s, effs) ->
+  wsum f (d_received s)
+  = (wsum f (waiting s) + wsum f (map fst (d_skipped s)) + wsum f (d_dialled s))%nat
+  /\ wsum g (map snd (d_dialled s)) = (wsum g (d_flying s) + wsum g (map fst (d_finished s)))%nat.
+Proof. exact Discovery_proofs.disc_accounting. Qed.
+Print Assumptions C15_discovery_every_entry_once.
+
+(* The reasons are the real ones, step by step: "known" only for the head entry of that handler whose
+   address the topology holds at that moment; "cancelled" only for entries of a handler that sits in
+   its select with an ended context; a Connect call only for the peer in the dispatcher's hand with a
+   free slot; a worker's AddPeers only for the peer a running Connect returned. *)
+Theorem C15_discovery_step_sound : forall cap s e s' eff,
+  dstep cap s e = Ok (s', eff) ->
+  (forall h x, In (XSkip h x SkConnected) eff ->
+     exists k, find_h h (d_handlers s) = Some k /\ hd_error (h_rem k) = Some x
+               /\ is_connected (addr_of_bytes (fst x)) (d_topo s) = true)
+  /\ (forall h x, In (XSkip h x SkCancelled) eff ->
+     exists k, find_h h (d_handlers s) = Some k /\ In x (h_rem k) /\ h_cancel k = true /\ h_offer k = true)
+  /\ (forall u, In (XDial u) eff ->
+     exists x, d_pending s = Some x /\ snd x = u /\ d_held s < cap)
+  /\ (forall p, In (XAdd p) eff -> exists u, e = DDone u (DialOk p) /\ flying u s = true).
+Proof. exact Discovery_proofs.disc_step_sound. Qed.
+Print Assumptions C15_discovery_step_sound.
+
+(* At rest (every handler returned, dispatcher at its receive, no worker running): the semaphore is at
+   zero, every entry received was skipped for a named reason or dialled, every dial has returned. *)
+Theorem C15_discovery_at_rest : forall cap evs s effs (f : wire_record -> nat) (g : bytes -> nat),
+  drun cap evs = Ok (s, effs) -> quiescent s = true ->
+  d_held s = 0
+  /\ wsum f (d_received s) = (wsum f (map fst (d_skipped s)) + wsum f (d_dialled s))%nat
+  /\ wsum g (map snd (d_dialled s)) = wsum g (map fst (d_finished s)).
+Proof. exact Discovery_proofs.disc_quiescent. Qed.
+Print Assumptions C15_discovery_at_rest.
+
+(* The semaphore returns to zero: after ANY schedule, internal steps alone (checks, hand-offs, acquires,
+   dial completions; no new list, no context needs to end), at most [measure s] of them, lead to the
+   state at rest with the semaphore at zero.  The width must be positive (Discovery_proofs.
+   disc_zero_width_stuck shows the dispatcher stuck in Acquire for width 0). *)
+Theorem C15_discovery_semaphore_returns_to_zero : forall cap evs s effs,
+  0 < cap -> drun cap evs = Ok (s, effs) ->
+  exists more s' effs', Forall Discovery_proofs.internal more /\ (length more <= measure s)%nat
+    /\ drun_from cap s more = Ok (s', effs') /\ quiescent s' = true /\ d_held s' = 0.
+Proof. exact Discovery_proofs.disc_semaphore_returns_to_zero. Qed.
+Print Assumptions C15_discovery_semaphore_returns_to_zero.
+
+(* No deadlock: while anything is left to do, some internal step is enabled, and every such step brings
+   the end strictly nearer (so every schedule of internal steps that keeps taking enabled ones ends at
+   rest after at most [measure s] steps). *)
+Theorem C15_discovery_no_deadlock : forall cap evs s effs,
+  0 < cap -> drun cap evs = Ok (s, effs) -> quiescent s = false ->
+  exists e s' eff, Discovery_proofs.internal e /\ dstep cap s e = Ok (s', eff) /\ (measure s' < measure s)%nat.
+Proof. exact Discovery_proofs.disc_no_deadlock. Qed.
+Print Assumptions C15_discovery_no_deadlock.
+
+(* Tie to the event-level model: one list, nobody else active, at least as many free slots as there are
+   unknown entries (the domain of the Gossip event, "within_pool" in the checker).  The machine, driven
+   entry by entry as the driver does ([gsched]: the handler's IsConnected answer is released, then the
+   hand-off and the Acquire that are enabled run), calls Connect exactly for what the Gossip event of
+   model/Topology.v dials, in that order; afterwards the handler has returned, the dispatcher is back
+   at its receive and the topology is untouched.  So C15_gossip_* are statements about this machine
+   in that domain; outside it (more unknown entries than free slots) only the machine applies. *)
+Theorem C15_discovery_refines_gossip : forall cap h from entries s c,
+  d_handlers s = [(h, mkH entries false c)] -> d_pending s = None ->
+  d_held s + N.of_nat (length (to_dial (d_topo s) entries)) <= cap ->
+  exists s' effs,
+    drun_from cap s (gsched cap s (repeat (GCheck h) (length entries))) = Ok (s', effs)
+    /\ d_handlers s' = [(h, mkH [] false c)] /\ d_pending s' = None /\ d_topo s' = d_topo s
+    /\ d_flying s' = d_flying s ++ to_dial (d_topo s) entries
+    /\ map Dial (xdials (concat effs)) = snd (step (d_topo s) (Gossip from true entries)).
+Proof. exact Discovery_proofs.gossip_refined. Qed.
+Print Assumptions C15_discovery_refines_gossip.
+
+(* ---- the mode-3 checker on the discovery machine's own run (proofs/Discovery_checker.v) -----------------
+   PARTIAL.  Proved for EVERY driver schedule [acts] (any lists, any order of releases, completions,
+   cancellations, topology events; [grun] compiles it as the checker does): the clause gossip:pool is
+   silent (the largest number of running dials never exceeds the regenerated width) and the view
+   clause is silent (the sets the checker keeps from the schedule's topology events and the AddPeers
+   calls seen are the key sets of the machine's topology).  Missing: silence of the per-effect clauses
+   (gossip:dialled-known, gossip:unproven, the return-code part of view:hang) for arbitrary schedules --
+   needs the invariant "checker's remaining / due / flying lists = the machine's handler lists, offered
+   heads + dispatcher's hand, flying list (as multisets of underlays)" under pairwise distinct handler
+   ids; tested on every run (0 violations on the model-equal observations), and
+   Discovery_checker.disc_checker_rejects shows both kinds of clause firing on tampered observations. *)
+From MevVerif Require proofs.Discovery_checker.
+Theorem C15_discovery_checker_accepts_model_partial : forall pr acts,
+  match grun pool_width dinit acts with
+  | (effs, s, pk) =>
+      (pool_width <? pk) = false
+      /\ view_ok (g_abs (fst (g_run (mkG [] [] [] [] abs_init) acts effs))) pr (observe pr (d_topo s) []) = true
+  end.
+Proof. exact Discovery_checker.disc_checker_pool_view_accept_model. Qed.
+Print Assumptions C15_discovery_checker_accepts_model_partial.
